@@ -187,7 +187,7 @@ type Run struct {
 	start   time.Time
 }
 
-const slotSize = 72 << 10
+const slotSize = 176 << 10 // one input of up to 70 000 bytes plus metadata (the padded inputs reach 65 537 bytes)
 
 // Worker is the per-goroutine handle monitors report through.
 type Worker struct {
@@ -326,15 +326,15 @@ func (w *Worker) journal(c *Case) {
 	b := w.slot
 	n := 16
 	put := func(s string) {
-		if len(s) > 30000 {
-			s = s[:30000]
+		if len(s) > 70000 {
+			s = s[:70000]
 		}
 		binary.LittleEndian.PutUint32(b[n:], uint32(len(s)))
 		n += 4
 		n += copy(b[n:], s)
 	}
 	full := c.In
-	if len(full) > 30000 && c.Desc != "" {
+	if len(full) > 70000 && c.Desc != "" {
 		full = ""
 	}
 	binary.LittleEndian.PutUint32(b[8:], uint32(len(c.In)))
